@@ -48,8 +48,8 @@ theorem runPack_asModelled (tab : SymTab) (g : Genome) (l : Locus) :
 
 /-- `i_mep::hash` as modelled: whatever the scratch buffer contained, the hash of exactly the
     packed active code -/
-theorem mepHash_asModelled {H : Type} (Hf : Bytes → H) (pb b0 : Bytes) :
-    mepHashAsModelled.run Hf pb b0 = some (Hf pb) := by
+theorem mepHash_asModelled {H : Type} (Hf : Bytes → H) (st : BufStorage) (pb b0 : Bytes) :
+    ({ mepHashAsModelled with storage := st } : MepHashSyn).run Hf pb b0 = some (Hf pb) := by
   simp [MepHashSyn.run, mepHashAsModelled, runOps]
 
 theorem vecBytes4_eq_packGa : ∀ v, vecBytes 4 v = packGa v
